@@ -6,9 +6,10 @@ import json, os, shutil, subprocess, sys, time
 pid, n = sys.argv[1], sys.argv[2]
 tier = sys.argv[sys.argv.index("--tier") + 1] if "--tier" in sys.argv else "quick"
 props = sys.argv[sys.argv.index("--props") + 1].split(",") if "--props" in sys.argv else [pid]
-wt = "/tmp/seed-" + pid
+rnd = sys.argv[sys.argv.index("--round") + 1] if "--round" in sys.argv else "1"
+wt = ("/tmp/seed-" if rnd == "1" else "/tmp/seed%s-" % rnd) + pid
 src = os.path.join(wt, "OUT", n)
-dst = "/verif/seeded/%s-%s" % (pid, n)
+dst = "/verif/seeded/%s-%s" % (pid, n) if rnd == "1" else "/verif/seeded/%s-r%s-%s" % (pid, rnd, n)
 os.makedirs(dst, exist_ok=True)
 for f in os.listdir(src):
     if os.path.isfile(os.path.join(src, f)) and os.path.getsize(os.path.join(src, f)) < 400000:
@@ -20,7 +21,7 @@ def build_lib():
     r = sh("cmake --build _build >/dev/null 2>&1 && cmake --build _build --target tests > /dev/null 2>&1; echo rc=$?")
     return "rc=0" in r.stdout
 def demo():
-    r = sh("g++ -std=c++14 -I include -I _build/include OUT/%s/demo.cpp -L _build/lib -ltins -lpcap -lcrypto -lpthread -o /tmp/seed-demo-%s && LD_LIBRARY_PATH=_build/lib timeout 120 /tmp/seed-demo-%s; echo demo_rc=$?" % (n, pid, pid))
+    r = sh("g++ -std=c++14 -I include -I _build/include OUT/%s/demo.cpp -L _build/lib -ltins -lpcap -lcrypto -lpthread -o /tmp/seed-demo-%s && LD_LIBRARY_PATH=_build/lib timeout 180 /tmp/seed-demo-%s; echo demo_rc=$?" % (n, pid + rnd, pid + rnd))
     return r.stdout.strip().splitlines()[-1]
 sh("git checkout -q -- . ")
 assert build_lib(), "baseline build failed"
@@ -34,15 +35,15 @@ r = sh("ctest --test-dir _build -j8 2>&1 | tail -3")
 meta["test_suite_with_change"] = " ".join(r.stdout.split())
 meta["demo_with_change"] = demo() if ok else "n/a"
 meta["confirmed"] = ok and "100% tests passed" in r.stdout and base_demo == "demo_rc=0" and meta["demo_with_change"] != "demo_rc=0"
-# our checks against the changed tree
+sh("git checkout -q -- .")
+# our checks against the change applied to /repo's CURRENT head (the sub-agent's base may predate later fix: commits)
 meta["checks"] = {}
 for p in props:
     t0 = time.time()
-    env = dict(os.environ, VERIF_REPO=wt)
-    rr = subprocess.run([sys.executable, "/verif/run.py", p, "--tier", tier], env=env, stdout=subprocess.PIPE, stderr=subprocess.STDOUT, text=True)
-    sigs = [l.strip()[10:] for l in rr.stdout.splitlines() if l.strip().startswith("signature=")]
-    meta["checks"][p] = {"tier": tier, "caught": rr.returncode == 1 and "VIOLATION" in rr.stdout, "exit": rr.returncode, "seconds": round(time.time() - t0), "signatures": sigs[:4]}
-    meta["ran"].append("VERIF_REPO=%s python3 run.py %s --tier %s" % (wt, p, tier))
+    rr = subprocess.run([sys.executable, "/verif/sens.py", p, os.path.join(dst, "patch.diff"), "--tier", tier], stdout=subprocess.PIPE, stderr=subprocess.STDOUT, text=True)
+    line = rr.stdout.strip().splitlines()[-1] if rr.stdout.strip() else ""
+    meta["checks"][p] = {"tier": tier, "caught": rr.returncode == 0 and "CAUGHT" in line, "result": line[:400], "seconds": round(time.time() - t0)}
+    meta["ran"].append("python3 sens.py %s %s --tier %s" % (p, os.path.relpath(os.path.join(dst, "patch.diff"), "/verif"), tier))
 sh("git checkout -q -- .")
 try:
     readme = open(os.path.join(dst, "README.md")).read()
@@ -50,4 +51,4 @@ try:
 except OSError:
     pass
 json.dump(meta, open(os.path.join(dst, "meta.json"), "w"), indent=1)
-print(json.dumps({k: meta[k] for k in ("confirmed", "demo_without_change", "demo_with_change", "test_suite_with_change", "checks")}, indent=1))
+print(os.path.basename(dst), "confirmed=%s" % meta["confirmed"], meta["demo_without_change"], meta["demo_with_change"], {k: v["result"][:160] for k, v in meta["checks"].items()})
